@@ -212,9 +212,13 @@ func (x *Exec) loadAt(st *State, a Addr) Val {
 		out := Val{GT: ft, S: ss}
 		var facts []string
 		for k, s := range ss {
-			arr := x.heapGet(st, x.fieldArrName(a.ST, a.Field, k), refArr(s))
+			fname := x.fieldArrName(a.ST, a.Field, k)
+			arr := x.heapGet(st, fname, refArr(s))
 			t := x.vc.Define("ld", s, "(select "+arr+" "+a.Ref+")")
 			out.L = append(out.L, t)
+			if s.K == SRef {
+				facts = append(facts, x.entryHeapFact(fname, arr, a.Ref, t))
+			}
 		}
 		facts = append(facts, x.typeFacts(out), x.refFacts(st, out))
 		x.assumeIn(st, and(facts...))
@@ -225,12 +229,17 @@ func (x *Exec) loadAt(st *State, a Addr) Val {
 		if isStructT(a.T) {
 			// elements that are structs by value: each leaf in its own element heap
 		}
+		var efacts []string
 		for k, s := range ss {
 			name, as := x.elemArr(a.T, k, s)
 			arr := x.heapGet(st, name, as)
-			out.L = append(out.L, x.vc.Define("ld", s, "(select (select "+arr+" "+a.Ref+") "+a.Idx+")"))
+			t := x.vc.Define("ld", s, "(select (select "+arr+" "+a.Ref+") "+a.Idx+")")
+			out.L = append(out.L, t)
+			if s.K == SRef {
+				efacts = append(efacts, x.entryHeapFact(name, arr, a.Ref, t))
+			}
 		}
-		x.assumeIn(st, and(x.typeFacts(out), x.refFacts(st, out)))
+		x.assumeIn(st, and(append(efacts, x.typeFacts(out), x.refFacts(st, out))...))
 		return out
 	case AKPtr:
 		ss := x.layout(a.T)
@@ -255,6 +264,17 @@ func (x *Exec) loadAt(st *State, a Addr) Val {
 		return Val{GT: a.T, S: ls, L: []string{x.vc.Define("ld", ls[0], "(select "+arr+" "+a.Ref+")")}}
 	}
 	panic("bad addr")
+}
+
+// entryHeapFact: a reference read from the ENTRY version of a heap map through an object that existed
+// at entry denotes an object that existed at entry (heaps are well-formed: nothing stored points to
+// an object that does not exist yet). One ground instance of the heap_wf axiom, at the load.
+func (x *Exec) entryHeapFact(name, arr, owner, val string) string {
+	if e, ok := x.heapEntry[name]; !ok || e != arr || x.entryNow == "" {
+		return "true"
+	}
+	x.birth()
+	return "(=> (<= (birth " + owner + ") " + x.entryNow + ") (<= (birth " + val + ") " + x.entryNow + "))"
 }
 
 // refFacts: references read from memory exist (birth <= now).
